@@ -4,7 +4,26 @@ import fcntl, os, subprocess, sys, time
 VERIF = os.path.dirname(os.path.dirname(os.path.dirname(os.path.abspath(__file__))))
 HARNESS = os.path.join(VERIF, "harness")
 TARGET = os.path.join(VERIF, ".target")
-REPO = "/repo"
+REPO = os.environ.get("VERIF_REPO") or "/repo"   # the registered checks never set VERIF_REPO; tools/seed_par.sh does (scratch worktrees)
+ALT = os.path.realpath(REPO) != "/repo"
+if ALT:
+    import hashlib, shutil
+    _tag = hashlib.sha1(os.path.realpath(REPO).encode()).hexdigest()[:10]
+    _alt_h = os.path.join(VERIF, "work", "alt", _tag, "harness")
+    if not os.path.isdir(_alt_h):
+        os.makedirs(os.path.dirname(_alt_h), exist_ok=True)
+        shutil.copytree(HARNESS, _alt_h, ignore=shutil.ignore_patterns("target"))
+    for _root, _d, _files in os.walk(HARNESS):      # refresh sources, substituting the repository path
+        for _f in _files:
+            _src = os.path.join(_root, _f); _dst = os.path.join(_alt_h, os.path.relpath(_src, HARNESS))
+            os.makedirs(os.path.dirname(_dst), exist_ok=True)
+            _t = open(_src, "rb").read().replace(b'"/repo"', ('"%s"' % os.path.realpath(REPO)).encode()).replace(b'"/repo/', ('"%s/' % os.path.realpath(REPO)).encode())
+            if not os.path.exists(_dst) or open(_dst, "rb").read() != _t:
+                open(_dst, "wb").write(_t)
+    HARNESS = _alt_h
+    MAIN = "alt-" + _tag
+else:
+    MAIN = "main"
 
 class BuildError(Exception):
     pass
@@ -35,15 +54,15 @@ def build(kind="dbg"):
     """Build the harness against /repo's working tree. Returns dict of binary paths.
     kind: dbg (debug assertions + overflow checks), rel (release), asan (nightly + AddressSanitizer)."""
     if kind == "dbg":
-        tdir = os.path.join(TARGET, "main")
-        _run_locked("main", ["cargo", "build", "--offline", "--bins"], dict(_env(), CARGO_TARGET_DIR=tdir), HARNESS)
+        tdir = os.path.join(TARGET, MAIN)
+        _run_locked(MAIN, ["cargo", "build", "--offline", "--bins"], dict(_env(), CARGO_TARGET_DIR=tdir), HARNESS)
         out = os.path.join(tdir, "debug")
     elif kind == "rel":
-        tdir = os.path.join(TARGET, "main")
-        _run_locked("main", ["cargo", "build", "--offline", "--bins", "--release"], dict(_env(), CARGO_TARGET_DIR=tdir), HARNESS)
+        tdir = os.path.join(TARGET, MAIN)
+        _run_locked(MAIN, ["cargo", "build", "--offline", "--bins", "--release"], dict(_env(), CARGO_TARGET_DIR=tdir), HARNESS)
         out = os.path.join(tdir, "release")
     elif kind == "asan":
-        tdir = os.path.join(TARGET, "asan")
+        tdir = os.path.join(TARGET, "asan" if not ALT else MAIN + "-asan")
         env = dict(_env("-Zsanitizer=address -Cforce-frame-pointers=yes"), CARGO_TARGET_DIR=tdir)
         _run_locked("asan", ["cargo", "+nightly", "build", "--offline", "--bins", "--target", "x86_64-unknown-linux-gnu"], env, HARNESS)
         out = os.path.join(tdir, "x86_64-unknown-linux-gnu", "debug")
